@@ -153,7 +153,7 @@ def rule_ow_sql(cx, rep, port='py'):
             if not isinstance(v, ast.Name):
                 problems.append('formatted value `{}` is not a plain variable'.format(node_text(v)))
                 continue
-            g = _guard_for(fd, v.id, c)
+            g = _guard_for(fd, v.id, c, p.modules[m])
             if g is None:
                 problems.append('`{}` reaches the SQL text without a dominating `re.match(<pattern>, {}) is None -> raise` guard'.format(v.id, v.id))
                 continue
@@ -244,13 +244,15 @@ def _format_parts(e):
     return None, None
 
 
-def _guard_for(fd, var, use):
+def _guard_for(fd, var, use, module=None):
     """`if re.match(P, var) is None: raise` (or `not re.match(..)`, or the same through a pattern object compiled at module level or
     earlier in the function) as a top-level statement of fd before `use`, so that it dominates it.  Returns (effective pattern
     anchored at the start as re.match does, node)."""
     mod = fd
     while mod is not None and not isinstance(mod, ast.Module):
         mod = getattr(mod, 'parent', None)
+    if mod is None:
+        mod = module
     compiled = {}
     for scope in ([mod.body] if mod is not None else []) + [fd.body]:
         for st in scope:
@@ -268,7 +270,7 @@ def _guard_for(fd, var, use):
             return compiled[e.func.value.id], e.func.attr
         return None
     for st in fd.body:
-        if st.lineno >= use.lineno:
+        if any(x is use for x in ast.walk(st)):
             break
         if isinstance(st, ast.If) and not st.orelse and st.body and isinstance(st.body[-1], ast.Raise):
             t = st.test
@@ -701,7 +703,7 @@ def _trace_select_text(p, mod, sp, e, at, chain, depth):
             return None, 'the select fragment passes through {}(), whose effect on the list-display wrapper is not known'.format(nm)
         return None, 'select fragment comes from `{}`'.format(node_text(e, 60))
     if isinstance(e, ast.Name):
-        defs = [n for n in walk_no_nested(sp) if isinstance(n, ast.Assign) and n is not at and any(e.id in _tnames(t) for t in n.targets) and (n.lineno < at.lineno or e.id.startswith('__'))]
+        defs = [n for n in walk_no_nested(sp) if isinstance(n, ast.Assign) and n is not at and any(e.id in _tnames(t) for t in n.targets) and (n.pos < at.pos or e.id.startswith('__'))]
         if not defs:
             return None, 'no definition of `{}`'.format(e.id)
         results = []
